@@ -321,3 +321,7 @@ def run(ctx):
     r01_3(ctx, A)
     r01_4(ctx, A)
     r01_5(ctx, A)
+    # node addresses are byte-counter readings (R01.3): they are right only if the counter counts exactly the accepted bytes (R07.1)
+    import rules.C07 as C07
+    from absint import Prover
+    C07.r07_1(ctx, A, Prover(lib))
